@@ -1,8 +1,9 @@
 CFG = {
- 'files': ['bmtree/index.go', 'bmtree/pathlen.go', 'bmtree/pathheight.go', 'bmtree/pathbits.go', 'bmtree/pathstr.go'],
+ 'files': ['bmtree/index.go', 'bmtree/pathlen.go', 'bmtree/pathheight.go', 'bmtree/pathbits.go', 'bmtree/pathstr.go', 'bmtree/height.go'],
  'go': {'bmtree.IndexToPath': 'bmtree.IndexToPath, then bmtree.PathToIndex(2^(h+1)-1, .) on its result',
         'bmtree.IndexToPath/fields': 'bmtree.IndexToPath, then PathLen/PathHeight/PathBits/PathMask/PathStr on its result',
         'bmtree.IndexToPath/order': 'bmtree.IndexToPath on two indices of one height, numeric comparison of the results',
+        'bmtree.Height/full': 'bmtree.Height(2^(h+1)-1)',
         'bmtree.PathToIndexLoose/full': 'bmtree.PathToIndexLoose(2^(h+1)-1, NewPath(node)), then bmtree.IndexToPath on its result',
         'bmtree.PathToIndex/inverse': 'bmtree.PathToIndex(2^(h+1)-1, NewPath(node)), then bmtree.IndexToPath on its result'},
  'rule': 'cases = every index of the full trees of heights 0..12 (this reads the whole idxToPath table through the API) and every node '
